@@ -4,7 +4,7 @@
    `wf g` (some abstract multigraph with a free list simulates the arrays) and the capacity bound 2^60. *)
 From Agdb Require Import Bytes Graph GraphArr GraphSim GraphSim2 GraphSim3 GraphOps GraphOps2 GraphProofs GraphRemove GraphSpec GraphWf.
 From Agdb Require Import DbModel Collections CollElems CollGraph StoredDbRep StoredDbOps StoredDbOpsGraph StoredDbOpsGraph2
-  StoredDbOpsGraph3 StoredDbOpsGraph4 StoredDbOpsWf.
+  StoredDbOpsGraph3 StoredDbOpsGraph4 StoredDbOpsWf StoredDbOpsKv StoredDbOpsKv2.
 From Coq Require Import ZifyBool ZifyNat ZifyN.
 Ltac Zify.zify_post_hook ::= Z.div_mod_to_equations.
 Open Scope Z_scope.
@@ -170,4 +170,99 @@ Proof.
   split; [apply uarr_unlink_from; assumption|].
   intros G1 E1. destruct (remove_from_edge_to g e G1 E1) as (Et & Etm & El).
   rewrite <- El. apply uarr_unlink_to; rewrite ?Et, ?Etm, ?El; assumption.
+Qed.
+
+(* ---------------- so_edge_ok ---------------- *)
+Lemma get_free_index_lengths g :
+  (length (g_fmeta g) <= length (g_fmeta (snd (get_free_index g))))%nat /\
+  (length (g_tmeta g) <= length (g_tmeta (snd (get_free_index g))))%nat.
+Proof.
+  unfold get_free_index. destruct (fmeta g 0 =? i64_min); cbn [snd].
+  - unfold grow. cbn [g_fmeta g_tmeta]. rewrite !app_length. cbn [length]. lia.
+  - unfold set_fmeta. cbn [g_fmeta g_tmeta]. rewrite !length_set. lia.
+Qed.
+
+(* the two counters insert_edge writes are the degree counters of the result *)
+Lemma insert_edge_counters g f t :
+  is_node g f = true -> is_node g t = true ->
+  length (g_fmeta g) = length (g_from g) -> length (g_tmeta g) = length (g_from g) ->
+  let g1 := snd (get_free_index g) in
+  let index := - fst (get_free_index g) in
+  let g3 := set_to (set_from g1 index (- f)) index (- t) in
+  let g4 := update_from_edge g3 f index in
+  exists G', insert_edge g f t = Some (index, G') /\
+    fmeta G' f = fmeta (set_from (set_fmeta g3 index (from g3 f)) f (- index)) f + 1 /\
+    tmeta G' t = tmeta (set_to (set_tmeta g4 index (to g4 t)) t (- index)) t + 1.
+Proof.
+  intros Nf Nt L2 L3. cbv zeta. destruct (get_free_index_lengths g) as [LF LT].
+  assert (Rf : Z.abs f < Z.of_nat (length (g_from g))).
+  { unfold is_node, valid_index, capacity in Nf. lia. }
+  assert (Rt : Z.abs t < Z.of_nat (length (g_from g))).
+  { unfold is_node, valid_index, capacity in Nt. lia. }
+  unfold insert_edge. rewrite Nf, Nt. cbn [andb].
+  destruct (get_free_index g) as [slot g1]. cbn [fst snd] in *.
+  eexists. split; [reflexivity|]. split.
+  - unfold update_to_edge, update_from_edge. unfold fmeta at 1. unfold set_tmeta at 1. cbn [g_fmeta].
+    unfold set_to at 1. cbn [g_fmeta]. unfold set_tmeta at 1. cbn [g_fmeta].
+    unfold set_fmeta at 1. cbn [g_fmeta]. rewrite get_set_same; [reflexivity|reflexivity|].
+    unfold set_from at 1. cbn [g_fmeta]. unfold set_fmeta at 1. cbn [g_fmeta]. rewrite length_set.
+    unfold set_to, set_from. cbn [g_fmeta]. lia.
+  - unfold update_to_edge. unfold tmeta at 1. unfold set_tmeta at 1. cbn [g_tmeta]. rewrite get_set_same; [reflexivity|reflexivity|].
+    unfold set_to at 1. cbn [g_tmeta]. unfold set_tmeta at 1. cbn [g_tmeta]. rewrite length_set.
+    unfold update_from_edge. unfold set_fmeta at 1. cbn [g_tmeta]. unfold set_from at 1. cbn [g_tmeta].
+    unfold set_fmeta at 1. cbn [g_tmeta]. unfold set_to, set_from. cbn [g_tmeta]. lia.
+Qed.
+
+Theorem wf_so_edge_ok g f t :
+  wf g -> capacity g < 1152921504606846976 -> 0 < f -> 0 < t -> is_node g f = true -> is_node g t = true ->
+  so_edge_ok g f t.
+Proof.
+  intros W Hcap Pf Pt Nf Nt. destruct W as [a [fl HS]]. pose proof HS as [[L1 [L2 L3]] R].
+  destruct (insert_edge_counters g f t Nf Nt L2 L3) as [G' [EI [EF ET]]]. cbv zeta in EI, EF, ET.
+  unfold so_edge_ok. cbv zeta. rewrite <- EF, <- ET. clear EF ET.
+  assert (OKop : GraphSpec.gop_ok (GInsertEdge f t)) by (split; lia).
+  destruct (gstep_sim g a fl (GInsertEdge f t) HS OKop) as [g1 [out [a1 [fl1 [E1 [A1 S1]]]]]].
+  cbn [gstep] in E1. rewrite EI in E1. injection E1 as <- <-.
+  cbn [astep] in A1. destruct (_ && _) eqn:Ec in A1; [|discriminate]. injection A1 as <-.
+  assert (Hf : In f (a_nodes a)).
+  { apply (is_node_iff _ _ _ _ _ _ _ _ _ HS) in Nf. rewrite Z.abs_eq in Nf by lia. exact Nf. }
+  assert (Ht : In t (a_nodes a)).
+  { apply (is_node_iff _ _ _ _ _ _ _ _ _ HS) in Nt. rewrite Z.abs_eq in Nt by lia. exact Nt. }
+  destruct (sim_out_edges _ _ _ S1 f Hf) as [_ CF]. destruct (sim_in_edges _ _ _ S1 t Ht) as [_ CT].
+  unfold edge_count_from in CF. unfold edge_count_to in CT. unfold a_out in CF. unfold a_in in CT.
+  rewrite map_length in CF, CT. cbn [a_edges] in CF, CT. rewrite adj_cons in CF, CT.
+  pose proof (adj_length_le esrc (a_edges a) f (length (g_from g)) (sim_edges_nodup _ _ _ HS) (sim_edges_pos _ _ _ HS)) as BF.
+  pose proof (adj_length_le etgt (a_edges a) t (length (g_from g)) (sim_edges_nodup _ _ _ HS) (sim_edges_pos _ _ _ HS)) as BT.
+  unfold capacity in Hcap. unfold i64_range. split.
+  - rewrite CF. destruct (esrc _ =? f); cbn [length]; lia.
+  - rewrite CT. destruct (etgt _ =? t); cbn [length]; lia.
+Qed.
+
+(* ---------------- the ids the insertions return ---------------- *)
+Lemma get_free_index_bound g :
+  wf g -> 0 < fst (get_free_index g) <= capacity g.
+Proof.
+  intros [a [fl HS]]. pose proof HS as [WL R]. pose proof (r_free _ _ _ _ _ _ _ _ _ _ _ _ _ R) as HF.
+  pose proof (r_cap _ _ _ _ _ _ _ _ _ _ _ _ _ R) as Hc.
+  unfold get_free_index. rewrite (f_head _ _ _ _ _ _ _ _ _ HF).
+  destruct fl as [|x r]; cbn [fhead].
+  - rewrite Z.eqb_refl. cbn [fst]. lia.
+  - destruct (f_fl _ _ _ _ _ _ _ _ _ HF x (or_introl eq_refl)) as [Hr [Hm _]].
+    destruct (Z.eqb_spec (- x) i64_min) as [E|_]; [contradiction|]. cbn [fst]. lia.
+Qed.
+
+Lemma wf_new_ids_ok g :
+  wf g -> capacity g < 1152921504606846976 ->
+  so_index_ok (cg_as_u64 (fst (insert_node g))) /\ so_index_ok (cg_as_u64 (- fst (get_free_index g))).
+Proof.
+  intros W Hcap. pose proof (get_free_index_bound g W) as B.
+  unfold insert_node. destruct (get_free_index g) as [slot g1]. cbn [fst] in *.
+  unfold so_index_ok, cg_as_u64. split; lia.
+Qed.
+
+Lemma graph_index_ok g id :
+  graph_index g id = true -> capacity g < 1152921504606846976 -> so_index_ok (cg_as_u64 id).
+Proof.
+  unfold graph_index, is_edge, is_node, valid_index, so_index_ok, cg_as_u64. intros G Hcap.
+  destruct (id <? 0); [lia|]. destruct (0 <? id); [lia|discriminate].
 Qed.
